@@ -174,7 +174,8 @@ def sin(x: Interval):
 
     yl = x.lo % twopi
     yh = x.hi % twopi
-    y = Interval(lo=yl, hi=yh)
+    # the reduced endpoints wrap (yl > yh) when x crosses a multiple of 2*pi
+    y = Interval(lo=yl, hi=yh, do_heavy_checks=False)
 
     sin_l = numpy_sin(yl)
     sin_h = numpy_sin(yh)
@@ -231,7 +232,6 @@ def sin_vector(x: Interval):  # vectorised version of sin().
 
     yl = x.lo % twopi
     yh = x.hi % twopi
-    y = Interval(yl, yh)
 
     sin_l = numpy_sin(yl)
     sin_h = numpy_sin(yh)
@@ -301,7 +301,6 @@ def cos(x: Interval):
 
     yl = x.lo % twopi
     yh = x.hi % twopi
-    y = Interval(lo=yl, hi=yh)
 
     cos_l = numpy_cos(yl)
     cos_h = numpy_cos(yh)
